@@ -140,11 +140,22 @@ func tokOf(words []aWord) (tok token.Token, at int) {
 func isFuncDecl(words []aWord) bool {
 	if startWith(words, token.LPAREN) { // func (
 		words = seekAfter(words[1:], token.RPAREN, token.LPAREN) // func (...)
-		if startWith(words, token.LBRACE) {                      // func (...) {
-			return false
+		// A method continues with its name: func (...) name( or func (T).name;
+		// anything else (`{` or a result type) belongs to a function literal.
+		words = skipComments(words)
+		if startWith(words, token.PERIOD) {
+			return true
 		}
+		return startWith(words, token.IDENT) && startWith(skipComments(words[1:]), token.LPAREN)
 	}
 	return true
+}
+
+func skipComments(words []aWord) []aWord {
+	for len(words) > 0 && words[0].tok == token.COMMENT {
+		words = words[1:]
+	}
+	return words
 }
 
 func seekAfter(words []aWord, tokR, tokL token.Token) []aWord {
